@@ -755,6 +755,9 @@ func (s *Service) ClientClose(client *ClientService) {
 
 			// remove from list
 			s.clients = append(s.clients[:i], s.clients[i+1:]...)
+
+			// the list just changed under the loop: stop here
+			break
 		}
 	}
 
